@@ -241,6 +241,21 @@ func subC20(out string, seed uint64, tier string, arg string) {
 			dnCert([][]atv{{{oidC, 0x13, "US"}, {oidO, tg, val}}, {{oidCN, 0x0C, "dn.example.com"}}}, fmt.Sprintf("multi-RDN C+O=%q tag %x", v, tg))
 		}
 	}
+	// the *structure* of the name: empty RDNs (a SET with no attribute — the parser accepts it), multi-valued RDNs of two to four
+	// attributes, repeated attributes, at every position and in combination — counts of RDNs and of attributes diverge there
+	{
+		c := atv{oidC, 0x13, "US"}
+		o := atv{oidO, 0x0C, "Example Corp"}
+		cn := atv{oidCN, 0x0C, "dn.example.com"}
+		ou := atv{asn1.ObjectIdentifier{2, 5, 4, 11}, 0x0C, "Unit"}
+		for i, sh := range [][][]atv{
+			{{c}, {}, {cn, o}}, {{c}, {cn, o}, {}}, {{}, {c, o, cn}}, {{}, {}, {c, o, cn}}, {{c, o}, {}, {cn}}, {{}, {c}, {cn}}, {{c}, {}, {cn}}, {{}},
+			{{c}, {c}, {cn}}, {{c, c}, {cn}}, {{cn, o, ou, c}}, {{c}, {o, ou}, {}, {}, {cn}}, {{c, o}, {cn, ou}}, {{}, {}, {}, {c, o, ou, cn}}, {{c}, {o}, {ou}, {cn}},
+		} {
+			dnCert(sh, fmt.Sprintf("name structure %d", i))
+		}
+		rep.count("dn-structure-shapes")
+	}
 	// ---- thresholds
 	for _, days := range []int{396, 397, 398, 399, 400, 825} {
 		for _, ds := range []int{-1, 0, 1} {
